@@ -317,8 +317,16 @@ func (m *txMock) TxRelayPayment(_ context.Context, relays []*pairingtypes.RelayS
 				What: fmt.Sprintf("TxRelayPayment carries proof %s of epoch %d while the earliest block in memory is %d", kName(id.k), e, s.mem())})
 		}
 		if st.subs > maxSubs {
-			m.viols = append(m.viols, ev.Violation{Property: "C29", Key: "proof-submitted-more-than-1-plus-max-retries",
-				What: fmt.Sprintf("proof %s (cu %d) was submitted %d times in one process lifetime (limit 1+%d)", kName(id.k), p.CuSum, st.subs, rewardserver.MaxPaymentRequestsRetiresForSession)})
+			// two shapes: the retry counter of this proof's session id agrees with the number of submissions (the
+			// limit itself is too high) or it has lost count (it was reset or is shared)
+			shape := "retry-counter-lost-count"
+			for _, r := range s.srv.VerifDumpRetries() {
+				if r.Session == p && r.Attempts == uint64(st.subs-1) {
+					shape = "retry-counter-in-step"
+				}
+			}
+			m.viols = append(m.viols, ev.Violation{Property: "C29", Key: "proof-submitted-more-than-1-plus-max-retries:" + shape,
+				What: fmt.Sprintf("proof %s (cu %d) was submitted %d times in one process lifetime (limit 1+%d; %s)", kName(id.k), p.CuSum, st.subs, rewardserver.MaxPaymentRequestsRetiresForSession, shape)})
 		}
 		if ok {
 			s.paidable[id.k] = append(s.paidable[id.k], p.CuSum)
